@@ -987,9 +987,12 @@ func c04Run(in0 interface{}) Result {
 
 // ================= generators =================
 var c04Hop = []string{"Connection", "Keep-Alive", "Proxy-Authenticate", "Proxy-Authorization", "Proxy-Connection", "TE", "Trailer", "Upgrade", "Alt-Svc", "Alternate-Protocol", "te", "keep-alive"}
-var c04E2E = []string{"Accept", "X-A", "X-B", "x-lower", "User-Agent", "Cookie", "Authorization", "X-Forwarded-For", "Content-Type", "Cache-Control", "X-Secret", "Accept-Encoding"}
+var c04E2E = []string{"Accept", "X-A", "X-B", "x-lower", "User-Agent", "Cookie", "Authorization", "X-Forwarded-For", "Content-Type", "Cache-Control", "X-Secret", "Accept-Encoding", "X-Real-IP", "X-Forwarded-Proto"}
 var c04Vals = []string{"v1", "v2", "a, b", "abc1ab", "timeout=5", "Basic abc", "1.1.1.1", "gzip", "websocket", "x y"}
-var c04ConnVals = []string{"close", "keep-alive", "X-A", "x-b, X-Secret", " X-A ,, Keep-Alive", "Upgrade", "", "x-lower,Cookie", "X-Forwarded-For", "TE, X-B", "upgrade", "X-T1", "Set-Cookie, X-B"}
+var c04ConnVals = []string{"close", "keep-alive", "X-A", "x-b, X-Secret", " X-A ,, Keep-Alive", "Upgrade", "", "x-lower,Cookie", "X-Forwarded-For", "TE, X-B", "upgrade", "X-T1", "Set-Cookie, X-B",
+	// headers the proxy itself adds (X-Forwarded-For always; X-Real-IP / X-Forwarded-Proto / X-Forwarded-Port / Host under
+	// `transparent`) named hop-by-hop by the client: the removal runs before the prior value is read (C04_xff_listed_in_connection)
+	"close, x-forwarded-for", "X-Forwarded-For, X-Real-IP", "X-Forwarded-Proto, X-Forwarded-Port, Host", "x-real-ip"}
 
 func c04GenLines(r *Rand, e2e, hop []string, n int, connP int) [][2]string {
 	var out [][2]string
